@@ -113,6 +113,10 @@ func drawKind(c *harness.Ctx, label string) startKind {
 }
 
 func runC18(c *harness.Ctx) {
+	if c.T.Draw("part", 3) == 2 {
+		runC18Tickets(c)
+		return
+	}
 	t := c.T
 	d := simos.NewDisk()
 	simos.Activate(d)
@@ -300,4 +304,113 @@ func checkBridgeLine(c *harness.Ctx, d *simos.Disk, id ident) bool {
 		}
 	}
 	return true
+}
+
+// runC18Tickets: the other persisted client state.  A ScrambleSuit client
+// process is killed (or hits EIO / ENOSPC) at every disk step of a connection
+// that spends one ticket and stores a new one; afterwards ClientFactory on
+// the same state directory must still start, and a spent ticket must never
+// be presented to the server again.
+func runC18Tickets(c *harness.Ctx) {
+	t := c.T
+	w := newSSWorld(c)
+	defer simos.Deactivate()
+	if err := w.newFactory(); err != nil {
+		c.Violate("C18/ticket-store-blocks-startup", "first start: %v", err)
+		return
+	}
+	// fault-free prefix: one or two connections, the last one leaves a ticket
+	for i, n := 0, 1+t.Draw("npre", 2); i < n; i++ {
+		if !w.connect(ssConnectOpts{issueTicket: true, sendSeed: t.Draw("seed", 2) == 1}) {
+			return
+		}
+	}
+	if _, ok := w.d.Get(ssDir + "/scramblesuit_tickets.json"); !ok {
+		// (the ticket packet can be lost when the connection is torn down first)
+		c.Feature("prefix-left-no-ticket")
+		c.Reached = true
+		return
+	}
+	snap := w.d.Snapshot()
+	uses := make([]int, len(w.server.Tickets))
+	for i, tk := range w.server.Tickets {
+		uses[i] = tk.Uses
+	}
+	nTickets := len(w.server.Tickets)
+	restore := func() {
+		w.d.Restore(snap)
+		w.server.Tickets = w.server.Tickets[:nTickets]
+		for i, tk := range w.server.Tickets {
+			tk.Uses = uses[i]
+		}
+		w.crashed = false
+	}
+	// dry run of the connection that will be interrupted
+	next := ssConnectOpts{issueTicket: t.Draw("issue", 2) == 1}
+	w.d.ResetPlan()
+	if !w.connect(next) {
+		return
+	}
+	steps := append([]simos.StepRec(nil), w.d.Steps...)
+	c.Info["interrupted"], c.Info["disk_steps"] = fmt.Sprintf("connect(issueTicket=%v)", next.issueTicket), steps
+	faults := []struct {
+		name string
+		err  error
+	}{{"crash", nil}, {"EIO", syscall.EIO}, {"ENOSPC", syscall.ENOSPC}}
+	for j := 1; j <= len(steps); j++ {
+		torn := []int{0}
+		if steps[j-1].Op == "write" {
+			torn = []int{0, 1, 2, 3, 4, 5 + t.Draw("torn", 4096)}
+		}
+		for _, fk := range faults {
+			for _, ts := range torn {
+				restore()
+				if err := w.newFactory(); err != nil {
+					c.Violate("C18/harness", "factory from the snapshot: %v", err)
+					return
+				}
+				w.d.ResetPlan()
+				w.d.TornSel = ts
+				if fk.err == nil {
+					w.d.CrashAt = j
+				} else {
+					w.d.ErrAt, w.d.ErrKind = j, fk.err
+				}
+				caseID := fmt.Sprintf("tickets|%v|step %d/%d %s|%s|torn %d", next.issueTicket, j, len(steps), steps[j-1].Op, fk.name, tornClass(ts))
+				c.Case(caseID)
+				c.S.Log("case", caseID)
+				c.S.Count("fault."+fk.name+"@ticket-"+steps[j-1].Op, 1)
+				w.lenient, c.S.Mute = true, true
+				w.connect(next)
+				w.lenient, c.S.Mute = false, false
+				what := fmt.Sprintf("client connection interrupted by %s at disk step %d of %d (%s %s, torn selector %d); ticket file now %s", fk.name, j, len(steps), steps[j-1].Op, steps[j-1].Path, ts, describeSS(w.d))
+				// recovery: the client starts again from the same directory
+				w.d.ResetPlan()
+				if err := w.newFactory(); err != nil {
+					c.Violate("C18/ticket-store-blocks-startup", "%s: ClientFactory fails with %q", what, err)
+					return
+				}
+				// and keeps working; nothing spent comes back
+				if !w.connect(ssConnectOpts{}) {
+					return
+				}
+				for _, tk := range w.server.Tickets {
+					if tk.Uses > 1 {
+						c.Violate("C18/spent-ticket-reappeared", "%s: after the restart the server saw a ticket for the %d. time", what, tk.Uses)
+						return
+					}
+				}
+			}
+		}
+	}
+	c.Reached, c.Nontrivial = true, true
+	c.Feature("tickets-crash-enumeration")
+}
+
+func describeSS(d *simos.Disk) string {
+	b, ok := d.Get(ssDir + "/scramblesuit_tickets.json")
+	if !ok {
+		return "absent"
+	}
+	return fmt.Sprintf("%d bytes", len(b))
 }
